@@ -55,14 +55,14 @@ theorem contentLoop_step (hv ord : Bool) (g : TV) (l : List TV) (ih it : Bool) (
           obtain ⟨rfl, rfl⟩ := heq
           have h2 := ht g (List.mem_cons_self ..)
           have h3 := trailer_not_header h2
-          refine ⟨false, false, ?_, [], l, rfl, by simp, fun f hf => ht f (List.mem_cons_of_mem _ hf)⟩
-          simp [fieldContentLoop, hval, h3]
+          refine ⟨false, true, ?_, fun f hf => ht f (List.mem_cons_of_mem _ hf)⟩
+          simp [fieldContentLoop, hval, h3, h2]
       | cons x b' =>
         simp only [List.nil_append, List.cons_append, List.cons.injEq] at heq
         obtain ⟨rfl, rfl⟩ := heq
-        have ⟨h2, _⟩ := hb g (List.mem_cons_self ..)
+        have ⟨h2, h2t⟩ := hb g (List.mem_cons_self ..)
         refine ⟨false, false, ?_, b', t, rfl, fun f hf => hb f (List.mem_cons_of_mem _ hf), ht⟩
-        simp [fieldContentLoop, hval, h2]
+        simp [fieldContentLoop, hval, h2, h2t]
     | cons x h' =>
       simp only [List.cons_append, List.cons.injEq] at heq
       obtain ⟨rfl, rfl⟩ := heq
@@ -138,9 +138,63 @@ theorem contentLoop_section_order (hv : Bool) (h b rest : List TV) (x : TV) (hne
     have ⟨h2, h3⟩ := hb g (List.mem_cons_self ..)
     have step : fieldContentLoop hv true ((g :: b') ++ x :: rest) true false =
         fieldContentLoop hv true (b' ++ x :: rest) false false := by
-      simp [fieldContentLoop, h1, h2]
+      simp [fieldContentLoop, h1, h2, h3]
     rw [step, contentLoop_body_prefix hv true b' _ hvb.tail (fun f hf => hb f (List.mem_cons_of_mem _ hf))]
     simp [fieldContentLoop, hvx, hx]
+
+
+/-- after at least one trailer field, from the header or the body phase, the loop is in the trailer phase -/
+theorem contentLoop_enter_trailer (hv ord : Bool) (t₁ : TV) (rest : List TV) (ih : Bool)
+    (ht : isTrailerTag t₁.tag = true) (hval : (hv && t₁.value.isEmpty) = false) :
+    fieldContentLoop hv ord (t₁ :: rest) ih false = fieldContentLoop hv ord rest false true := by
+  have h3 := trailer_not_header ht
+  cases ih <;> simp [fieldContentLoop, hval, ht, h3]
+
+theorem contentLoop_trailer_prefix (hv ord : Bool) : ∀ (t rest : List TV), ValuesOK hv t →
+    (∀ f ∈ t, isTrailerTag f.tag = true) →
+    fieldContentLoop hv ord (t ++ rest) false true = fieldContentLoop hv ord rest false true := by
+  intro t
+  induction t with
+  | nil => intros; rfl
+  | cons f r ih =>
+    intro rest hval htr
+    have h1 := hval f (List.mem_cons_self ..)
+    have h2 := htr f (List.mem_cons_self ..)
+    have h3 := trailer_not_header h2
+    simp only [List.cons_append, fieldContentLoop, h1, h2, h3]
+    simp
+    exact ih rest hval.tail (fun g hg => htr g (List.mem_cons_of_mem _ hg))
+
+/-- a body field behind a trailer field is named (reason 14), whether or not any body field came before the trailer -/
+theorem contentLoop_behind_trailer (hv : Bool) (h b t rest : List TV) (t₁ x : TV)
+    (hval : ValuesOK hv (h ++ (b ++ (t₁ :: t ++ [x]))))
+    (hh : ∀ f ∈ h, isHeaderTag f.tag = true)
+    (hb : ∀ f ∈ b, isHeaderTag f.tag = false ∧ isTrailerTag f.tag = false)
+    (ht₁ : isTrailerTag t₁.tag = true) (ht : ∀ f ∈ t, isTrailerTag f.tag = true)
+    (hx : isHeaderTag x.tag = false ∧ isTrailerTag x.tag = false) :
+    fieldContentLoop hv true (h ++ (b ++ (t₁ :: t ++ x :: rest))) true false = rej 14 x.tag := by
+  have hvh : ValuesOK hv h := fun f hf => hval f (List.mem_append_left _ hf)
+  have hvb : ValuesOK hv b := fun f hf => hval f (List.mem_append_right _ (List.mem_append_left _ hf))
+  have hvt₁ : (hv && t₁.value.isEmpty) = false := hval t₁ (by simp)
+  have hvt : ValuesOK hv t := fun f hf => hval f (by simp [hf])
+  have hvx : (hv && x.value.isEmpty) = false := hval x (by simp)
+  have tail : fieldContentLoop hv true (t ++ x :: rest) false true = rej 14 x.tag := by
+    rw [contentLoop_trailer_prefix hv true t _ hvt ht]
+    simp [fieldContentLoop, hvx, hx.1, hx.2]
+  rw [contentLoop_header_prefix hv true h _ hvh hh]
+  cases b with
+  | nil =>
+    simp only [List.nil_append, List.cons_append]
+    rw [contentLoop_enter_trailer hv true t₁ _ true ht₁ hvt₁]; exact tail
+  | cons g b' =>
+    have h1 := hvb g (List.mem_cons_self ..)
+    have ⟨h2, h3⟩ := hb g (List.mem_cons_self ..)
+    have step : fieldContentLoop hv true ((g :: b') ++ (t₁ :: t ++ x :: rest)) true false =
+        fieldContentLoop hv true (b' ++ (t₁ :: t ++ x :: rest)) false false := by
+      simp [fieldContentLoop, h1, h2, h3]
+    rw [step, contentLoop_body_prefix hv true b' _ hvb.tail (fun f hf => hb f (List.mem_cons_of_mem _ hf))]
+    simp only [List.cons_append]
+    rw [contentLoop_enter_trailer hv true t₁ _ false ht₁ hvt₁]; exact tail
 
 /-! ### the walk: plain prefixes, undefined tags -/
 
